@@ -12,6 +12,8 @@ const VARS: [&str; 3] = ["a", "b", "c"];
 struct Lex {
     scopes: Vec<HashMap<String, String>>,
     probes: Vec<String>,
+    /// reuse templates (content of the groups written inside <specs>), by id
+    templates: HashMap<String, Vec<X>>,
 }
 
 impl Lex {
@@ -61,6 +63,26 @@ impl Lex {
                         for (k, v) in attrs { m.insert(k.clone(), v.clone()); }
                         self.scopes.push(m);
                         if let Some(ks) = kids { self.run(ks); }
+                        self.scopes.pop();
+                    }
+                    "specs" => {
+                        // never rendered; its groups are templates
+                        for k in kids.iter().flatten() {
+                            if let X::El { attrs, kids: Some(ks), .. } = k {
+                                if let Some((_, id)) = attrs.iter().find(|(a, _)| a == "id") { self.templates.insert(id.clone(), ks.clone()); }
+                            }
+                        }
+                    }
+                    "reuse" => {
+                        // the reuse element's attributes are a scope around a fresh copy of the template
+                        let mut m = HashMap::new();
+                        let mut tpl = None;
+                        for (k, v) in attrs { if k == "href" { tpl = self.templates.get(v.trim_start_matches('#')).cloned(); } else { m.insert(k.clone(), self.subst(v)); } }
+                        self.scopes.push(m);
+                        // the copy is a group: a scope of its own (without attributes)
+                        self.scopes.push(HashMap::new());
+                        if let Some(ks) = tpl { self.run(&ks); }
+                        self.scopes.pop();
                         self.scopes.pop();
                     }
                     "loop" => {
@@ -118,7 +140,18 @@ impl<'a> Gen<'a> {
         let mut out = vec![];
         let mut has_forward = false;
         for _ in 0..len {
-            match self.rng.below(if depth >= 3 { 4 } else { 8 }) {
+            match self.rng.below(if depth >= 3 { 4 } else { 9 }) {
+                8 => {
+                    // <reuse>: its attributes are locals of the copy; one template holds a forward reference,
+                    // so the whole instantiation (and what encloses it) fails first and is attempted again
+                    let k = *self.rng.pick(&VARS);
+                    let v = self.value();
+                    let fwd = self.forward && self.rng.chance(1, 2);
+                    has_forward |= fwd;
+                    let mut attrs = vec![("href".to_string(), if fwd { "#tplF" } else { "#tplA" }.to_string())];
+                    if self.rng.chance(3, 4) { attrs.push((k.to_string(), v)); }
+                    out.push(X::El { name: "reuse".into(), attrs, kids: None });
+                }
                 0 | 1 => out.push(self.probe(false)),
                 2 => {
                     // assignment: plain or in terms of current values; all attributes in parallel
@@ -180,6 +213,7 @@ impl<'a> Gen<'a> {
 }
 
 fn reads(n: &X, acc: &mut Vec<String>) {
+    if let X::El { name, .. } = n { if name == "reuse" { for k in VARS { acc.push(k.to_string()); } } }
     if let X::El { attrs, kids, .. } = n {
         for (_, v) in attrs {
             for k in VARS { if v.contains(&format!("${k}")) || v.contains(&format!("${{{k}}}")) { acc.push(k.to_string()); } }
@@ -191,6 +225,10 @@ fn reads(n: &X, acc: &mut Vec<String>) {
 fn gen_doc(rng: &mut Rng, forward: bool, plain_only: bool) -> Vec<X> {
     let mut g = Gen { rng, n_probe: 0, forward, plain_only, frozen: vec![] };
     let mut top: Vec<X> = if plain_only { vec![] } else { vec![X::leaf("var", &[("a", "A0"), ("b", "B0"), ("c", "C0")])] };
+    top.push(X::node("specs", &[], vec![
+        X::node("g", &[("id", "tplA")], vec![X::leaf("rect", &[("wh", "1"), ("data-p", "$a|$b|${c}")])]),
+        X::node("g", &[("id", "tplF")], vec![X::leaf("rect", &[("wh", "1"), ("data-p", "<$a>")]), X::leaf("rect", &[("wh", "1"), ("xy", "#z|h 1"), ("data-p", "$b-$c")])]),
+    ]));
     let units = 3 + g.rng.below(5);
     for _ in 0..units {
         // build one top-level unit; if it contains a forward reference it will be retried as a whole:
@@ -240,7 +278,7 @@ fn check_doc(rep: &mut Report, drv: &mut Driver, corr: &mut Stream, orc: &mut St
             Err(what) => rep.violation(Violation { kind: "correspondence", stream: corr.name.clone(), signature: format!("scoping:{tag}"), what, replay: json!({"input": xml}), confirmed_on_impl: false }),
         }
     }
-    let mut lex = Lex { scopes: vec![HashMap::new()], probes: vec![] };
+    let mut lex = Lex { scopes: vec![HashMap::new()], probes: vec![], templates: HashMap::new() };
     lex.run(nodes);
     orc.case(&xml, lex.probes.len() > 1, || json!({"document": xml, "lexical_probe_values": lex.probes}));
     let mut fail = None;
